@@ -42,7 +42,7 @@
 From Coq Require Import List ZArith NArith Bool Arith Permutation Lia.
 From EasyML Require Import Base.Sx Model.Shape Model.Views Model.ViewsMut Model.ViewsConv Proofs.ShapeP
   Proofs.C01P Proofs.C02Lemmas Proofs.C02P Proofs.C02Q Proofs.C02Inj Proofs.C02W Proofs.C02Lin
-  Proofs.C02Mut Proofs.C02Conv Proofs.C02Lay Proofs.C02Spec.
+  Proofs.C02Mut Proofs.C02Conv Proofs.C02Lay Proofs.C02Spec Proofs.C02ExpandConv.
 Import ListNotations.
 Open Scope N_scope.
 
@@ -331,6 +331,16 @@ Theorem C02_mapping_expand : forall c ex idx, cwf (CExpand c ex) ->
   end.
 Proof. exact mapping_expand. Qed.
 
+(* ... and the CONVERSE: every source index j (of the source's dimensionality) is reached, through exactly
+   the index "j with a 0 inserted at every extra dimension", which has the expansion's dimensionality.
+   With C02_mapping_expand (only such indexes resolve) the expansion's index mapping is a bijection
+   between the indexes it resolves and the source's indexes: no source element is hidden by an expansion *)
+Theorem C02_mapping_expand_converse : forall c ex j, cwf (CExpand c ex) -> length j = length (c_shape c) ->
+  expand_idx (insert_zeros j 0 ex) 0 ex = Some j /\
+  c_get (CExpand c ex) (insert_zeros j 0 ex) = c_get c j /\
+  length (insert_zeros j 0 ex) = (length (c_shape c) + length ex)%nat.
+Proof. exact mapping_expand_converse. Qed.
+
 (* ... and in terms of the RAW argument of TensorExpansion::from: the extras requested at position i
    appear before source dimension i IN THE ORDER THE CALLER GAVE THEM (the sort by position is
    stable) - whatever order the pairs were listed in *)
@@ -557,6 +567,7 @@ Print Assumptions C02_shape_range_mask_rename.
 Print Assumptions C02_shape_index.
 Print Assumptions C02_mapping_index.
 Print Assumptions C02_mapping_expand.
+Print Assumptions C02_mapping_expand_converse.
 Print Assumptions C02_expand_ctor_shape.
 Print Assumptions C02_stack_spec.
 Print Assumptions C02_shape_chain.
